@@ -149,6 +149,7 @@ def _requests(tier):
     else:
         plist = alphabet.paths(2, 2) + alphabet.paths(0, 3, core=[b"a", b"..", b".", b"", b"secret", b"z.zip", b"m.mbox", b"sub"])
     extra = [
+        b"/z2.zip/pub", b"/z2.zip/pub/inner.zip", b"/z2.zip/pub/inner.zip/i.txt", b"/z2.zip/pub/.cache.pygopherd.zip3.inner.zip",
         b"/z.zip/inner.zip", b"/z.zip/inner.zip/i.txt", b"/z.zip/sub/inner.zip/i.txt", b"/z.zip/inner.zip/../secret", b"/gm2", b"/gm2/", b"/1/gm2",
         b"/z.zip/m.mbox", b"/z.zip/../secret", b"/z.zip/sub/../../secret", b"/z.zip/secret", b"/z.zip/s.sh", b"/z.zip/p.pyg", b"/z.zip/md",
         b"/m.mbox|/MBOX-MESSAGE/1", b"/../m.mbox|/MBOX-MESSAGE/1", b"/../md|/MAILDIR-MESSAGE/1", b"/secret|/MBOX-MESSAGE/1",
@@ -202,6 +203,19 @@ class _Env:
         spec["bad.sh"] = ("exec", b"#!/no/such/interpreter\necho never\n")
         inner = worlds.make_zip([("i.txt", b"inner member\n")])
         spec["z.zip"] = worlds.make_zip([("f.txt", b"zip member f\n"), ("sub/g.txt", b"zip member g\n"), ("m.mbox", worlds.MBOX), ("inner.zip", inner), ("sub/inner.zip", inner)])
+        # an archive in an archive, next to a member named like the index cache of the inner one (what zipping up a
+        # served directory produces), stamped later than the inner archive
+        import io
+        import zipfile
+
+        buf = io.BytesIO()
+        with zipfile.ZipFile(buf, "w") as z:
+            for name, data, date in (("pub/inner.zip", inner, (2004, 1, 1, 0, 0, 0)), ("pub/.cache.pygopherd.zip3.inner.zip", b"not a shelf", (2005, 1, 1, 0, 0, 0)),
+                                     ("pub/.cache.pygopherd.zip3.inner.zip.dat", b"x", (2005, 1, 1, 0, 0, 0)), ("pub/.cache.pygopherd.zip3.inner.zip.dir", b"", (2005, 1, 1, 0, 0, 0)), ("pub/readme.txt", b"r\n", (2004, 1, 1, 0, 0, 0))):
+                zi = zipfile.ZipInfo(name, date_time=date)
+                zi.external_attr = 0o100644 << 16
+                z.writestr(zi, data)
+        spec["z2.zip"] = buf.getvalue()
         # content that points outside: link targets the selector filter would refuse
         spec["gm2"] = {"gophermap": b"0Up\t/../secret\n0Rel\t../secret\n1Dir\t/../\n0Dots\t/a/../../secret\n0Bs\t/..\\secret\n"}
         spec[".links"] = b"Name=Climb\nType=0\nPath=../secret\n\nName=Climb2\nType=0\nPath=/../secret\n"
